@@ -42,6 +42,19 @@ def handleMSA (fs : List (List String)) : Option String :=
     let intl : List (List (Option Nat)) := (splitRows internal).map fun r => r.map fun x => if x == 0 then none else some (x - 1)
     some ((if updateOkb 0 (splitRows toks) intl (splitRows i2e) then "M " else "M! ") ++
       rowsStr (updateAlignments 0 (splitRows toks) intl (splitRows i2e)))
+  | [["msa2col"], ids, toks, groups, rows] =>
+    -- ids of the words; their segments (one row per id, codes, 0 = gap); member ids per set; the aligned rows of all sets in order
+    let idl := ids.map nat!
+    let tokRows := splitRows toks
+    let tokensOf : Nat → List Nat := fun k => ((idl.zip tokRows).find? fun p => p.1 == k).map (·.2) |>.getD []
+    let grp := splitRows groups
+    let allRows := splitRows rows
+    let rec cut (gs : List (List Nat)) (rs : List (List Nat)) : List (List Nat × List (List Nat)) :=
+      match gs with
+      | [] => []
+      | g :: gs' => (g, rs.take g.length) :: cut gs' (rs.drop g.length)
+    let out := msa2col idl tokensOf (cut grp allRows)
+    some ("M " ++ rowsStr (out.map (·.2)))
   | _ => none
 
 end Verif.Driver
